@@ -14,6 +14,7 @@ def run(ctx):
     s = ctx['seed'] + 10
     parts = [
         Part('variants', 'corr_meta', 'run_njobs', [s, 60 if q else 1200]),
+        Part('matcher_code', 'corr_matchergen', 'run', [s, 100 if q else 2000], count_exceptions=False),
         Part('wrapper_code', 'corr_wrappergen', 'run', [s, 120 if q else 2500], count_exceptions=False),
         Part('matcher_candset', 'corr_meta', 'run_njobs_matcher', [s, 60 if q else 1000]),
         Part('split_grid', 'corr_split', 'run', [s, 150 if q else 1500]),
